@@ -155,8 +155,42 @@ class ExpandSurface(core.Surface):
         return m[0] == "OK" and 0 < len(m[1]) < 18000
 
 
-MATCH, LIKE, EXPAND = MatchSurface(), LikeSurface(), ExpandSurface()
-SURFACES = {s.name: s for s in (MATCH, LIKE, EXPAND)}
+class SeqSurface(core.Surface):
+    """history: the SAME pattern text used case-insensitively (action matching), then case-sensitively (Like operator), then
+    case-insensitively again, in one process -- a matcher cache keyed on the text alone would poison one of them"""
+    name = "match(p,s) ; StringLike(p)(s) ; match(p,s) on the same text"
+    theorem = "C08_ci / C08_instance_cs (each call is a function of its own arguments)"
+
+    def impl(self, x):
+        def run():
+            from pycfmodel.model.resources.properties.statement_condition import StatementCondition
+            from pycfmodel.utils import regex_from_cf_string
+            order = x["order"]
+            out = []
+            for step in order:
+                if step == "ci":
+                    out.append(bool(regex_from_cf_string(x["p"]).match(x["s"])))
+                else:
+                    out.append(StatementCondition.model_validate({"StringLike": {"k": x["p"]}})({"k": x["s"]}))
+            return out
+        return core.impl_call(run)
+
+    def model(self, rn, x):
+        ci = rn.call(802, [x["p"], x["s"]])
+        cs = rn.call(801, [x["p"], x["s"]])
+        return ("OK", [ci if step == "ci" else cs for step in x["order"]])
+
+    frozen = frozenset({"order"})
+
+    def tags(self, x):
+        return tags_of(x["p"]) | {"sequence"}
+
+    def nontrivial(self, x, i, m):
+        return m[0] == "OK" and len(set(m[1])) > 1
+
+
+MATCH, LIKE, EXPAND, SEQ = MatchSurface(), LikeSurface(), ExpandSurface(), SeqSurface()
+SURFACES = {s.name: s for s in (MATCH, LIKE, EXPAND, SEQ)}
 LIKE_OPS = ["StringLike", "ArnLike", "StringNotLike", "ArnNotLike"]
 SMALL = ["a", "A", "*", "?", ".", "+", "(", "[", "\\"]
 
@@ -213,6 +247,11 @@ def cases(rng, tier, shard, nshards):
             yield LIKE, {"op": rng.choice(LIKE_OPS), "p": p, "s": s}
         if k % (n_pairs // n_expand) == 0:
             yield EXPAND, {"p": gen_action_pattern(rng, cat)}
+        if k % 5 == 0:
+            # case-differing candidate so that the two readings disagree
+            p2 = gen_pattern(rng)
+            s2 = instantiate(rng, p2, flipcase=True)
+            yield SEQ, {"p": p2, "s": s2, "order": rng.choice([["ci", "cs", "ci"], ["cs", "ci", "cs"], ["ci", "cs"], ["cs", "ci"]])}
     if tier == "thorough":
         words = [""] + ["".join(w) for n in (1, 2, 3) for w in itertools.product(SMALL, repeat=n)]
         for idx, p in enumerate(words):
